@@ -42,8 +42,8 @@ GHashAcc(h, x, i, y) ==
   IF i > Len(x) THEN y
   ELSE GHashAcc(h, x, i + 16, LMul(LXor(y, Limbs(SubSeq(x, i, i + 15))), h))
 
-Len64(nbytes) ==        \* [8 * nbytes]_64, nbytes < 2^28
-  <<0, 0, 0, 0>> \o WToBytes(<< (nbytes \div 8192) % 65536, (nbytes % 8192) * 8 >>)
+Len64(nbytes) ==        \* [8 * nbytes]_64 for nbytes < 2^31 (no intermediate value exceeds 2^31)
+  <<0, 0, 0, (nbytes \div 536870912) % 256>> \o WToBytes(<< (nbytes \div 8192) % 65536, (nbytes % 8192) * 8 >>)
 
 \* ---- the mode: SP 800-38D is written once, over an abstract block, in module GCMG; this is
 \* its production instance (16-byte blocks, 32-bit counter, GF(2^128), 64-bit bit lengths,
@@ -60,6 +60,7 @@ J0(H, iv) == M!J0(H, iv)
 Seal(rk, iv, aad, p, t) == M!Seal(rk, iv, aad, p, t)
 Open(rk, iv, aad, ct, t) == M!Open(rk, iv, aad, ct, t)
 Decrypted(rk, iv, ct, t) == M!Decrypted(rk, iv, ct, t)
+SealZeroAad(rk, iv, nz, p, t) == M!SealZeroAad(rk, iv, nz, p, t)
 
 \* ---- published vectors
 \* GCM specification (McGrew, Viega) test case 2: X1 = C * H
